@@ -304,6 +304,34 @@ def tri_compare(np, kind, model, fr, hf, b, t, w):
 # --------------------------------------------------------------------------
 
 
+def hyp_status(c, eps):
+    """Do the hypotheses of gabor_/gammatone_rebuild_within_2eps hold for this filter?"""
+    bank, i = c["bank"], c["i"]
+    try:
+        if c["kind"] == "gabor":
+            s = float(bank._stds[i])
+            cen = float(bank._centers_ang[i])
+            l2 = bool(bank._scale_l2_norm)
+            T = (math.log(s) + math.log(2) + 0.5 * math.log(math.pi) if l2 else 0.0) - 2 * math.log(eps)
+            if not (s > 0 and T > 0):
+                return "support-undefined"
+            if not (T + math.log(2) >= 1):
+                return "wrap-half-width-below-one-std"
+            if not (0 <= cen <= math.pi):
+                return "centre-outside-[0,pi]"
+        else:
+            n = int(bank._order)
+            a, cc, xi = float(bank._alphas[i]), float(bank._cs[i]), float(bank._xis[i])
+            sa = 2.0 / n * (math.log(cc) + math.log(math.factorial(n - 1)) - math.log(eps))
+            if not (a > 0 and cc > 0 and a * a < math.exp(sa)):
+                return "support-undefined"
+            if not (0 <= xi <= math.pi):
+                return "centre-outside-[0,pi]"
+    except (AttributeError, ValueError, IndexError, TypeError):
+        return "unknown(private constants not available)"
+    return "whole-period(exact by cplx_fallback_exact)" if c.get("fallback_in") else "hold"
+
+
 def regenerate(ctx):
     import scales as gen_scales
     from pyexpr import Unsupported
@@ -383,6 +411,21 @@ def _run(ctx):
         for i in idxs:
             for w in widths_for(ctx, bank, i, n_w):
                 cases.append(dict(desc=d, i=i, w=w, kind=d["kind"], bank=bank))
+    # wide Gabor / gammatone filters: whole-period branch and wrap-around below 0 / above the width
+    for kind in ("gabor", "gt"):
+        for _ in range(ctx.scale(14, 80)):
+            d = random_bank_desc(ctx, kind)
+            d["num_filts"] = r.choice([1, 1, 2])
+            d["low_hz"] = r.choice([0, 20.0]) if d["scale"] != "octave" else 20.0
+            d["high_hz"] = r.choice([None, None, d["rate"] // 2, d["rate"] / 3])
+            bank = build(mods, d, np)
+            if bank is None:
+                ctx.count("ctor:not-constructible:" + kind)
+                continue
+            ctx.count("bank:wide-" + kind)
+            for i in range(bank.num_filts):
+                for w in widths_for(ctx, bank, i, ctx.scale(5, 10)):
+                    cases.append(dict(desc=d, i=i, w=w, kind=kind, bank=bank))
     # adversarial exact-hit banks (edges on bin centres; Nyquist edge)
     for rate, w, k in [(8000, 16, 2), (16000, 512, 32), (8000, 77, 37), (16000, 400, 5), (44100, 441, 3), (8000, 81, 20)]:
         for kind in ("tri", "fbank"):
@@ -556,6 +599,7 @@ def _run(ctx):
                 lo_t, hi_t = cpx_inputs(c)
                 wraps = (not c["fallback_in"]) and (li < 0 or ri >= w)
                 ctx.case(dict(kind=c["kind"], bank=c["desc"], filt_idx=c["i"], width=w), nontrivial=True)
+                ctx.count("theorem-hypotheses:" + c["kind"] + ":" + hyp_status(c, eps))
                 ctx.count("cplx:" + ("whole-period" if c["fallback_in"] else "wraps-around" if wraps else "no-wrap"))
                 if tr is None:
                     cbad.append((c, "model raises where the implementation returned arrays"))
@@ -674,6 +718,22 @@ def _run(ctx):
                         w, fn, qr(plo), qr(phi), qr(n), qr(v.real), qr(tv), w, fn, qr(plo), qr(phi), qr(n), qr(v.imag), qr(tv))
                     goals.append((c, g, "gammatone %s[%d] = %r" % (which, pos, v)))
                     ctx.count("values:gammatone(Interval)")
+            # the support edges the constructor publishes against the R model's half-width
+            slo, shi = bank.supports_hz[i]
+            ratef = float(bank.sampling_rate)
+            if kind == "gabor":
+                cen = qr(float(bank._centers_ang[i]))
+                dterm = "gabor_d %s %s %s" % (cb(bool(bank._scale_l2_norm)), qr(eps), qr(float(bank._stds[i])))
+                unfd = "gabor_d, gabor_T"
+            else:
+                cen = qr(float(bank._xis[i]))
+                dterm = "gt_d %d %s %s %s" % (int(bank._order), qr(float(bank._alphas[i])), qr(float(bank._cs[i])), qr(eps))
+                unfd = "gt_d, gt_supp_a; cbn [fact Nat.sub Nat.mul Nat.add INR]"
+            for sign, edge in (("-", slo), ("+", shi)):
+                g = "Goal Rabs ((%s %s %s) * %s / (2 * PI) - %s) <= %s.\nProof. unfold %s. interval with (i_prec 80). Qed.\n" % (
+                    cen, sign, dterm, qr(ratef), qr(float(edge)), qr(1e-9 * max(1.0, abs(float(edge)), ratef * 1e-3)), unfd)
+                goals.append((c, g, "supports_hz edge %r" % float(edge)))
+                ctx.count("values:support-edge(Interval)")
             # the whole-period decision, certified on the R model
             if c.get("pred_fallback") is not None:
                 if kind == "gabor":
